@@ -342,7 +342,7 @@ def replay(harness, inp):
                 return "history %r: call %d returns %r, in isolation %r" % (inp["hist"], i, got, exp)
         return None
     if harness in ("H2_usecmap", "H3_intern", "H5_idempotent", "H0_inventory"):
-        return "%s: frame condition violated for %r" % (harness, inp)
+        return core.replay_by_choices({"H2_usecmap": h2_usecmap, "H3_intern": h3_intern, "H5_idempotent": h5_idempotent, "H0_inventory": h0_inventory}[harness], {}, inp["_choices"])
     raise KeyError(harness)
 
 
